@@ -362,7 +362,7 @@ func c01(c *core.Ctx, r *core.Report) {
 					for _, side := range []ssa.Value{bo.X, bo.Y} {
 						if ld, isC := an.Strip(side).(*ssa.Call); isC {
 							if lt := an.Callee(ld); lt != nil && lt.Name() == "Load" {
-								if f := an.FieldOfAddr(ld.Call.Args[0]); f != nil && f.Name() == "count" {
+								if f := an.FieldOfAddr(ld.Call.Args[0]); f != nil && f.Name() == durationRoles(c).count {
 									okG = true
 								}
 							}
@@ -847,8 +847,8 @@ func routingRules(c *core.Ctx, r *core.Report) {
 			continue
 		}
 		d0, d1 := an.D().Of(ret.Results[0]), an.D().Of(ret.Results[1])
-		r.Check(strings.Contains(d1, "Snapshot($d."+fieldOfClass(life)+")"), "CollectLifetime#lifetime-result", an.Pos(c, ret), "#1 ← "+d1, "second result (lifetime figures) is "+d1)
-		r.Check(strings.Contains(d0, "Snapshot(") && !strings.Contains(d0, "$d."+fieldOfClass(life)), "CollectLifetime#period-result", an.Pos(c, ret), "#0 ← "+d0, "first result (period figures) is "+d0)
+		r.Check(strings.Contains(d1, "Snapshot($recv."+fieldOfClass(life)+")"), "CollectLifetime#lifetime-result", an.Pos(c, ret), "#1 ← "+d1, "second result (lifetime figures) is "+d1)
+		r.Check(strings.Contains(d0, "Snapshot(") && !strings.Contains(d0, "$recv."+fieldOfClass(life)), "CollectLifetime#period-result", an.Pos(c, ret), "#0 ← "+d0, "first result (period figures) is "+d0)
 	}
 }
 
